@@ -134,16 +134,22 @@ def mon_c12_lower(sc, obs):
     kb, qobjs = sc[1], sc[5]
     nb = len(kb)
     prev_op = None
+    dirty = set()
     for n, op, amt, before, after in walk(sc, obs):
         if after is None:
             return None
         last, prev_op = prev_op, op
+        if op[0] == 20:
+            dirty.discard(op[1])
         if op[0] != 21:
             continue
         qi = op[1]
         kd, opd, free, full, w, ovars = qobjs[qi][:6]
         full = full == 1
         if opd >= nb:
+            dirty.add(opd - nb)
+            continue
+        if qi in dirty:
             continue
         if free and last != [20, qi]:
             continue   # free-variable path: the private neuron of a grounding is re-created when its instance count changed since the last upward
@@ -171,11 +177,16 @@ def mon_c12_forced(sc, obs):
     kb, qobjs = sc[1], sc[5]
     nb = len(kb)
     valid = set()
+    dirty = set()      # quantifiers whose PRIVATE neurons an outer quantifier's downward has written since their last upward:
+                       # their visible table no longer shows the bounds their own downward will push
     for n, op, amt, before, after in walk(sc, obs):
         if after is None:
             return None
+        if op[0] == 21 and qobjs[op[1]][1] >= nb:
+            dirty.add(qobjs[op[1]][1] - nb)
         if op[0] == 20:
             valid.add(op[1])
+            dirty.discard(op[1])
             continue
         if op[0] in (1, 2, 8):
             valid.clear()
@@ -185,7 +196,7 @@ def mon_c12_forced(sc, obs):
         qi = op[1]
         kd, opd, free, full, w, ovars = qobjs[qi][:6]
         full = full == 1
-        if opd >= nb or (free and qi not in valid):
+        if opd >= nb or (free and qi not in valid) or qi in dirty:
             continue
         rows = before[0][opd]
         if not rows or any(r[0] > r[1] for r in rows.values()):
@@ -234,6 +245,8 @@ def mon_c05_quant(sc, obs):
 
 def c05_quant_part(ctx):
     scs, meta = gen_quant.gen_k50(ctx.rng("c05q"), 300 if ctx.quick else 4000, downward=True, nested=0.3)
+    s2, m2 = gen_quant.gen_k50_interleaved(ctx.rng("c05qi"), 60 if ctx.quick else 800)
+    scs, meta = scs + s2, meta + m2
     run_q(ctx, "K7 quantifiers whose instance sets grow during inference (add_data between calls)", scs, ["c05_quant"], hashseeds=(0,))
     ctx.cov["quantifier_distribution"] = qdist(meta)
     ctx.corpus(["d14_resized_neuron.py"])
@@ -381,16 +394,44 @@ def gen_c12(ctx, n):
         hid = [[i, list(g), x] for (i, g), x in hidden.items()]
         scs.append([50, kb, [], [gen_fol.OPEN], data, qobjs, ops2, hid])
         meta.append({"nq": 1, "partial": False, "nested": False, "full": False})
+    # nested (variadic) quantifiers, the same textbook shape one level up: Forall(x, y, not N(x, y)) refuted by its world (Exists
+    # dually proved) while TWO x-groups each hold one undetermined instance: nothing is forced; the hidden reading makes one
+    # group the culprit and the other one innocent
+    for _ in range(max(1, n // 8)):
+        kd = rng.choice([0, 1])
+        nx = rng.choice([2, 2, 3])
+        kb = [[0, [], [], 2, list(gen_fol.DEFP), []], [1, [0], [[0, 1]], 2, list(gen_fol.DEFP), [[0, 1]]]]
+        decidedN = [F(0), F(0)] if kd == 0 else [F(1), F(1)]        # body = not N: TRUE for Forall, FALSE for Exists
+        culprit = rng.randrange(nx)
+        hidden, d = {}, []
+        for c in range(nx):
+            hidden[(0, (c, 0))] = decidedN[0]
+            d.append([[c, 0], list(decidedN)])
+            hidden[(0, (c, 1))] = (1 - decidedN[0]) if c == culprit else decidedN[0]
+            d.append([[c, 1], [F(0), F(1)]])
+        for (i, g), v in list(hidden.items()):
+            hidden[(1, g)] = 1 - v
+        qobjs = [[kd, 1, [0], rng.choice([0, 2]), gen_fol.OPEN, [0, 1]],
+                 [kd, 2, [], rng.choice([0, 2]), (gen_fol.CLOSED if kd == 0 else gen_fol.AXIOM), [0]]]
+        ops2 = [[1, 1], [20, 0], [20, 1], [21, 1], [21, 0], [2, 1, -1]]
+        if rng.random() < 0.5:
+            ops2 += [[1, 1], [20, 0], [20, 1], [21, 1], [21, 0], [2, 1, -1]]
+        hid = [[i, list(g), x] for (i, g), x in hidden.items()]
+        scs.append([50, kb, [], [gen_fol.OPEN, gen_fol.OPEN], [[0, d]], qobjs, ops2, hid])
+        meta.append({"nq": 2, "partial": True, "nested": True, "full": False})
     return scs, meta
 
 
 def check_C12(ctx):
     st, pr = standard_prologue(ctx)
     scs, meta = gen_c12(ctx, 400 if ctx.quick else 5000)
+    s2, m2 = gen_quant.gen_k50_interleaved(ctx.rng("c12i"), 60 if ctx.quick else 800)
+    for sc in s2:
+        sc.append([])        # no hidden reading: these scenarios serve the exact comparison with the model
+    scs, meta = scs + s2, meta + m2
     run_q(ctx, "K7 quantifier downward on ground-consistent tables", scs, ["c12_hidden", "c12_lower", "c12_forced"], hashseeds=(0, 4))
     ctx.cov["distribution"] = qdist(meta)
-    ctx.corpus(["d4_fq_downward.py"])
-    ctx.assumptions.append("downward through a quantifier whose operand is itself a quantifier is not modelled (checked only through the corpus witnesses)")
+    ctx.corpus(["d4_fq_downward.py", "d15_nested_downward.py", "d14_resized_neuron.py"])
     return ctx.finish("proof", pr, st, rule=RULE_K7 + "; C12: facts are bounds around a hidden ground interpretation of the predicates (quantifiers OPEN, or AXIOM when the hidden reading satisfies them); "
                       "monitors: every instance row still contains the hidden value after every call; a Forall's lower / an Exists' upper bound reaches every instance of its grounding; every instance row after a downward step equals the old row met with the n-ary inverse over the rows the operand shows at that moment (also after reset_bounds() of single objects without a new upward pass)")
 
